@@ -189,7 +189,9 @@ ProbeCounts(g, e, L, f) ==
            cnt(st) == n * Cardinality({a \in probed : Status(g, L, a) = st})
            nreg == IF "sel" \in DOMAIN e THEN Cardinality(ToSet(e.sel) \cap DOMAIN L.meta) ELSE Cardinality(DOMAIN L.meta)
            f1 == BumpN(BumpN(BumpN(BumpN(f, "probe.runs", cnt("runs")), "probe.refused", cnt("refused")), "probe.absent", cnt("absent")), "probe.std", cnt("std"))
-       IN BumpN(f1, "probe.registered-toplevel-empty-calldata", (IF e.full THEN 9 ELSE 6) * nreg)   \* e0 (6 modes) [+ e1 (3 modes)] per registered contract
+           zs == Cardinality({a \in Erc20s(L) : ~L.meta[a].disabled /\ L.meta[a].denom \in DOMAIN e.reg.supplyPos /\ ~e.reg.supplyPos[L.meta[a].denom]})
+           f0 == IF e.full THEN BumpN(f1, "probe.running-erc20-with-zero-supply", n * zs) ELSE f1
+       IN BumpN(f0, "probe.registered-toplevel-empty-calldata", (IF e.full THEN 9 ELSE 6) * nreg)   \* e0 (6 modes) [+ e1 (3 modes)] per registered contract
 
 (***************************************************************************)
 (* lines                                                                   *)
@@ -274,6 +276,9 @@ OpCheck(R, e) ==
     [] op.k = "Retype" ->
          [c |-> Law(~res.ok, "Type", IF op.asNew THEN "UniqueAddr-redeploy-over-existing-accepted" ELSE "TypeStable-type-change-accepted"), R |-> R]
     [] op.k = "RawVersion" -> [c |-> OK, R |-> [R EXCEPT !.ver = op.ver]]
+    (* bank operations: the total supply of a denomination drained to zero through the ERC-20 precompile / minted back.
+       They are no registry operations: the registry - and with it the wiring judged by the exposure laws - is unchanged. *)
+    [] op.k \in {"Drain", "MintBack"} -> [c |-> OK, R |-> R]
     [] OTHER -> [c |-> <<"Trace", "unknown-op">>, R |-> R]
 
 DoOp ==
@@ -290,6 +295,7 @@ DoOp ==
                 Law(Ev.op.k = "RawVersion" \/ VersionMonotoneStep(R, L), "Version", "VersionMonotone"),
                 Law(NonceMonotoneStep(R, L), "Nonce", "decreased"),
                 Law(Ev.res.ok \/ Ev.op.k = "DeployErc20Batch" \/ L = R, "Rejected", "rejected-operation-changed-the-registry"),
+                Law(Ev.op.k \notin {"Drain", "MintBack"} \/ L = R, "Registry", "changed-by-a-bank-supply-change"),
                 ProjectionLaws(Ev.reg),
                 StateDiff(L, oc.R)
               >>)
